@@ -110,6 +110,13 @@ func checkC13(c *Ctx) {
 		{"K:print", "I:abs", "(", "-", "N:3e0", ")", ";", "L:2", "I:abs", "=", "I:sqrt", ";", "L:3", "K:print", "I:abs", "(", "N:16e0", ")", ";"},
 		{"K:var", "I:o", "=", "{", "I:b", ":", "N:2e0", ",", "I:a", ":", "N:1e0", ",", "I:c", ":", "[", "{", "I:z", ":", "N:1e0", ",", "I:y", ":", "N:2e0", ",", "I:x", ":", "N:3e0", "}", "]", "}", ";", "L:2", "K:print", "I:o", ";", "L:3", "K:print", "[", "I:o", ",", "I:o", "]", ";", "L:4", "K:print", "I:keys", "(", "I:o", ")", ";", "L:5", "K:print", "I:values", "(", "I:o", ")", ";"},
 	}
+	// failing programs whose diagnostic could mention the object's state: 6 properties, a missing one read / deleted / called
+	six := []string{"K:var", "I:o", "=", "{", "I:f", ":", "N:6e0", ",", "I:a", ":", "N:1e0", ",", "I:e", ":", "N:5e0", ",", "I:b", ":", "N:2e0", ",", "I:d", ":", "N:4e0", ",", "I:c", ":", "N:3e0", "}", ";", "L:2", "K:print", "S:before", ";", "L:3"}
+	extra = append(extra,
+		append(append([]string{}, six...), "K:print", "I:o", ".", "I:zz", ";"),
+		append(append([]string{}, six...), "I:delkey", "(", "I:o", ",", "S:zz", ")", ";"),
+		append(append([]string{}, six...), "I:o", ".", "I:zz", "(", ")", ";"),
+		append(append([]string{}, six...), "K:print", "I:keys", "(", "I:o", ")", "[", "N:9e0", "]", ";"))
 	type prog struct {
 		key, src, stdin string
 		rec             *SemRec
